@@ -124,7 +124,7 @@ type concIn struct {
 }
 
 type concOut struct {
-	Variant [5]int      `json:"variant"`
+	Variant [6]int      `json:"variant"`
 	Results [][]int     `json:"results"` // per thread: [kind, n, c] for lookups, [] otherwise
 	Calls   [][][3]int  `json:"calls"`   // per thread: the storage calls it issued
 	Sched   []int       `json:"sched"`   // the schedule actually executed (given schedule + completion suffix)
@@ -141,6 +141,9 @@ func runConc(c concIn) *concOut {
 	out := &concOut{Variant: variant, PropOK: true}
 	if v, ok := casByBackend[c.Backend]; ok {
 		out.Variant[4] = v
+	}
+	if v, ok := scasByBackend[c.Backend]; ok {
+		out.Variant[5] = v
 	}
 	if c.Nodes < 1 {
 		c.Nodes = 2
@@ -345,6 +348,9 @@ func statePredicate(c concIn, out *concOut) {
 				desc := []string{}
 				for _, t := range c.Threads {
 					desc = append(desc, fmt.Sprintf("%s%v", thName[arg(t, 0)], t[1:]))
+				}
+				if out.Variant[5] == 1 && key != "race-state-other" {
+					key += "-despite-cas" // this tree has the atomic service on this backend: never a known finding
 				}
 				out.PropOK, out.PropKey = false, key
 				out.PropMsg = fmt.Sprintf("after the concurrent phase {%s} under schedule %v (one entry = one GetState/SetState/DeleteState), the client runtime state of %d read on node %d is %v, expected %v",
